@@ -56,7 +56,20 @@ func (e *bounded) Merge(b []byte, x []byte, y []byte) ([]byte, []byte, []byte) {
 }
 
 func (e *bounded) SubMergers(subs []Expr) []SubMerge {
+	for i, sub := range subs {
+		if e.String() == sub.String() {
+			// We have an exact match, its stored state is the wrapped expression's
+			sms := make([]SubMerge, len(subs))
+			sms[i] = e.subMerge
+			return sms
+		}
+	}
+
 	return e.wrapped.SubMergers(subs)
+}
+
+func (e *bounded) subMerge(data []byte, other []byte, otherRes time.Duration, metadata goexpr.Params) {
+	e.wrapped.Merge(data, data, other)
 }
 
 func (e *bounded) Get(b []byte) (float64, bool, []byte) {
